@@ -264,7 +264,27 @@ Theorem split_convolve_concatenate_is_grouped_convolution :
     concat_groups ocg (fun g co' => group_conv icg ocg g w x co') co = grouped_mix icg ocg w x co.
 Proof. exact conv_groups_lemma. Qed.
 
+(* ---- fixup_strided_conv: strides beyond the hardware's, by folding the width into the depth ---- *)
+(* n neighbouring positions become n * c channels, the kernel (padded with l zeros in front to a multiple of n) is
+   folded the same way, the stride is divided by n: the result is the original convolution with stride n * s and
+   offq * n - l zeros in front - for every fold factor, channel count, kernel, map, stride, offset and output position *)
+Theorem width_folded_convolution_is_strided_convolution :
+  forall kq n c l kw w x s offq o,
+    (0 < n)%nat -> (0 < c)%nat -> (l + kw <= kq * n)%nat ->
+    folded_conv kq n c (pad_kernel l kw w) x s offq o =
+    dsum kw c (fun k ch => w k ch * x (o * (Z.of_nat n * s) - offq * Z.of_nat n + Z.of_nat l + Z.of_nat k) ch).
+Proof. exact strided_fold_lemma. Qed.
+
+(* what the check validates on every fold the implementation performs *)
+Theorem fold_conditions_sound :
+  forall stride n s width kw l r pad_old pad_new,
+    fold_conditions stride n s width kw l r pad_old pad_new = true ->
+    0 < n /\ stride = n * s /\ width mod n = 0 /\ (kw + l + r) mod n = 0 /\ pad_new * n - l = pad_old.
+Proof. exact fold_conditions_sound_lemma. Qed.
+
 Print Assumptions space_to_batch_conv_batch_to_space_is_dilation.
+Print Assumptions width_folded_convolution_is_strided_convolution.
+Print Assumptions fold_conditions_sound.
 Print Assumptions split_convolve_concatenate_is_grouped_convolution.
 Print Assumptions diagonal_kernel_keeps_channels_apart.
 Print Assumptions all_ones_kernel_refuted.
